@@ -96,7 +96,11 @@ def run_steps(p):
         for t, a in enumerate(p["actions"]):
             td.set("action", torch.tensor([a]))
             prev_best = td["rec_best"][0].tolist()
-            td = env.step(td)["next"]
+            try:
+                td = env.step(td)["next"]
+            except Exception as e:  # noqa: BLE001
+                bad.append(f"step {t}: stepping the admitted move {a} at batch size 1 raised {type(e).__name__}: {str(e)[:120]}")
+                return {"violations": bad}
             cur, bst = td["rec_current"][0].tolist(), td["rec_best"][0].tolist()
             Lc = length(cur)
             nb = min(best, Lc)
@@ -110,6 +114,8 @@ def run_steps(p):
                 bad.append(f"step {t}: reward {float(td['reward'][0])} != decrease of best cost {best - nb}")
             if Lc >= best - 1e-7 and bst != prev_best:
                 bad.append(f"step {t}: stored best tour changed although the new tour is not better")
+            if not valid_tour(cur, p["kind"] == "pdp")[0]:
+                bad.append(f"step {t}: current tour {cur} is not a valid tour")
             if not valid_tour(bst, p["kind"] == "pdp")[0]:
                 bad.append(f"step {t}: stored best tour {bst} is not a valid tour")
             tot += float(td["reward"][0])
